@@ -30,6 +30,7 @@ pub struct Script {
 	pub signal_fail: Vec<usize>, // global signal call indices that fail
 	pub kill_fail: Vec<usize>,   // global start_kill call indices that fail
 	pub wait_fail: Vec<usize>,   // global indices of wait() completions that fail instead (the child stays un-reaped)
+	pub signal_errno: Option<i32>, // the OS error a failing signal call reports (default: a generic error)
 }
 
 #[derive(Debug)]
@@ -168,7 +169,8 @@ impl TokioChildWrapper for SimChild {
 		};
 		if fail {
 			log(&self.sh, &format!("sigfail({},{sig})", self.idx));
-			return Err(std::io::Error::other("injected signal failure"));
+			let en = self.sh.lock().unwrap().script.signal_errno;
+			return Err(match en { Some(n) => std::io::Error::from_raw_os_error(n), None => std::io::Error::other("injected signal failure") });
 		}
 		log(&self.sh, &format!("signal({},{sig})", self.idx));
 		let react = if sig == 9 {
